@@ -24,7 +24,7 @@ ASSUMPTIONS = ["the class tables (c_children, c_attributes, c_child_order) are t
 def gen_cases(tier, seed):
     env.assert_repo_is_source()
     cases = []
-    shapes = 4 if tier == "quick" else 40
+    shapes = 4 if tier == "quick" else 160
     for mod, cls in schema.all_classes():
         cases.append({"id": "%s.%s" % (mod.__name__, cls.__name__), "sig": [mod.__name__, cls.__name__],
                       "module": mod.__name__, "cls": cls.__name__, "shapes": shapes})
